@@ -138,7 +138,7 @@ CLAIMED = {
              "(raw_items_is_items, raw_items_exact); over ANY partially consistent database (bodies withheld or pruned, stale "
              "cached parents) it yields those images or stops with MissingTraversalNode for a node that really is absent "
              "(raw_nodes_loop_partial, raw_nodes_partial). Tie: keys/items/values/nodes sequences (also against the model's "
-             "transcription of the loop, at tree level and over the database; with one body withheld: a start of the pre-order, then the  model's MissingTraversalNode) and next(k) for stored, neighbouring and foreign keys.",
+             "transcription of the loop, at tree level and over the database; with one body withheld: a start of the pre-order, then the  model's MissingTraversalNode) and next(k) for stored, neighbouring and foreign keys. Over the database a history WITH squash_changes blocks leaves (Props/C10Blocks.lean, tree-free world, pruning on or off, under Good'): nodes() = the pre-order of the trie of the calls that count, items() = exactly its stored pairs in key order (raw_nodes_is_preorder_blocks, raw_items_exact_blocks).",
         technique="Lean 4 proof (order theory on nibble paths, induction on the tree model) + correspondence check",
         design_ref="6/C10"),
     "C04": dict(
